@@ -38,6 +38,31 @@ theorem angle_grid_range (x : Q) (hd : 0 < x.den) (h0 : 0 ≤ x.num) (h1 : x.num
       rw [Int.mul_right_comm]; rfl
     omega
 
+/-! ### the angle handed to `{:8.4f}` is wrapped into one turn by Python's `%` (`wrapDeg`), whatever representative the orbit holds -/
+
+/-- `x % 360` lies in `[0, 360)` for EVERY value `x`, negative ones included -/
+theorem wrap_range (x : Q) (hd : 0 < x.den) : 0 ≤ (wrapDeg x).num ∧ (wrapDeg x).num < 360 * (wrapDeg x).den := by
+  have hp : (0 : Int) < 360 * (x.den : Int) := by omega
+  exact ⟨Int.emod_nonneg _ (by omega), Int.emod_lt_of_pos _ hp⟩
+
+/-- `x % 360` is the same angle: it differs from `x` by a whole number of turns -/
+theorem wrap_same_angle (x : Q) : (wrapDeg x).den = x.den ∧ ∃ k : Int, x.num = (wrapDeg x).num + k * (360 * (x.den : Int)) := by
+  refine ⟨rfl, x.num / (360 * (x.den : Int)), ?_⟩
+  show x.num = x.num % (360 * (x.den : Int)) + x.num / (360 * (x.den : Int)) * (360 * (x.den : Int))
+  have := Int.emod_add_mul_ediv x.num (360 * (x.den : Int))
+  rw [Int.mul_comm (x.num / _)]; omega
+
+/-- **representatives of one angle are written alike**: adding whole turns to the angle does not change the number formatted -/
+theorem wrap_turn_invariant (x : Q) (k : Int) : wrapDeg ⟨x.num + k * (360 * (x.den : Int)), x.den⟩ = wrapDeg x := by
+  show (⟨(x.num + k * (360 * (x.den : Int))) % (360 * (x.den : Int)), x.den⟩ : Q) = ⟨x.num % (360 * (x.den : Int)), x.den⟩
+  rw [Int.add_mul_emod_self_right]
+
+/-- **every angle fits its eight columns without a sign**: for EVERY value `x` (any representative: negative, several turns),
+`"{:8.4f}".format(x % 360)` shows between `0.0000` and `360.0000` -/
+theorem wrapped_angle_fits_columns (x : Q) (hd : 0 < x.den) : 0 ≤ fixQ 4 (wrapDeg x) ∧ fixQ 4 (wrapDeg x) ≤ 3600000 := by
+  have h := wrap_range x hd
+  exact angle_grid_range (wrapDeg x) hd h.1 (Int.le_of_lt h.2)
+
 example : fixQ 4 ⟨1, 32⟩ = 312 ∧ fixQ 4 ⟨3, 32⟩ = 938 ∧ fixQ 4 ⟨35999995, 100000⟩ = 3600000 ∧ fixQ 4 ⟨360, 1⟩ = 3600000 := by decide
 
 /-- **the decimal exponent of a drag term is found for every double**: for every `x = n/d` with `1e-400 ≤ x < 1e400`
